@@ -1,1 +1,130 @@
-/-! Property theorems for C06 (not built yet). -/
+import Cellml.C06.CaseFree
+
+/-! # C06 — changing the units of a model variable never changes what the model computes
+
+    Model: `Cellml/Model/ConvertVar.lean` (`convertVariable` and its helpers, step by step as in model.py).
+    Lemmas: `Cellml/C06/*.lean`. A *point solution* of a model is a valuation of its variables and derivative atoms in
+    a field `K` that satisfies every equation under plain evaluation (`Sat`); numbers are read through any
+    `lit : ℚ → K` with `lit cf ≠ 0`, function symbols through any interpretation.
+
+    `WF s` is what the C08 invariant guarantees of a model built through the API (maps = equations filed by left-hand
+    side, no variable defined twice, nothing raised) plus: one free variable, no `d x / d x`. -/
+
+namespace Cellml.Props.C06
+open Model Model.CV
+
+variable {K : Type} [Field K]
+
+/-- **Soundness of one call**, any direction, any kind of variable (state variable, free variable, constant,
+    computed variable), any factor other than 1, with or without moving annotations. `CallOK` says: the call returns
+    the new variable; the result is well-formed again (in particular *nothing raised*); every point solution of `s`
+    extends to one of `s'` that agrees on every pre-existing variable and derivative, has `new = cf · original`,
+    `x_orig_deriv = d x / d t`, and every derivative rescaled by the state and time factors; and every point solution
+    of `s'` restricts to one of `s` with the same relations. -/
+theorem convert_var_sound (I : Interp K) {s : CState} (hwf : WF s) (v : Nat) (hv : v < s.vars.length) (u : U)
+    (cf : Rat) (hcf1 : cf ≠ 1) (hcf : I.lit cf ≠ 0) (dir : Dir) (move : Bool) :
+    CallOK I s v cf dir (convertVariable s v u cf dir move) := by
+  cases dir with
+  | output => exact case_output I hwf v hv u cf hcf1 hcf move
+  | input =>
+    cases hst : hasKey v s.odeDef with
+    | true => exact case_input_state I hwf v hv u cf hcf1 hcf move hst
+    | false =>
+      by_cases hfr : getFree s = some v
+      · exact case_input_free I hwf v hv u cf hcf1 hcf move hst hfr
+      · exact case_input_plain I hwf v hv u cf hcf1 hcf move hst hfr
+
+/-- a conversion to equivalent units (factor 1) leaves the model untouched and returns the original variable -/
+theorem convert_var_noop (s : CState) (v : Nat) (u : U) (dir : Dir) (move : Bool) :
+    convertVariable s v u 1 dir move = (s, v, []) := convertVariable_noop s v u dir move
+
+/-- from a well-formed model no call made by `convert_variable` raises, and the result is well-formed -/
+theorem convert_var_wf {s : CState} (hwf : WF s) (v : Nat) (hv : v < s.vars.length) (u : U) (cf : Rat) (dir : Dir)
+    (move : Bool) : WF (convertVariable s v u cf dir move).1 ∧ (convertVariable s v u cf dir move).1.raised = false := by
+  by_cases hcf1 : cf = 1
+  · subst hcf1; rw [convertVariable_noop]; exact ⟨hwf, hwf.inv.notRaised⟩
+  · by_cases hcf0 : cf = 0
+    · -- the invariant does not depend on the field; read the numbers in ℚ with `lit 0 := 1`
+      let I : Interp ℚ := ⟨fun q => if q = 0 then 1 else q, fun _ x => x, fun _ x _ => x⟩
+      have := (convert_var_sound I hwf v hv u cf hcf1 (by simp [I, hcf0]) dir move).wf
+      exact ⟨this, this.inv.notRaised⟩
+    · let I : Interp ℚ := ⟨fun q => q, fun _ x => x, fun _ x _ => x⟩
+      have := (convert_var_sound I hwf v hv u cf hcf1 (by simpa [I] using hcf0) dir move).wf
+      exact ⟨this, this.inv.notRaised⟩
+
+/-- `get_unique_name` answers a name that no variable of the model has: `…_converted` / `…_orig_deriv`, with as many
+    `_a` suffixes as needed, never clash -/
+theorem convert_var_names_fresh (s : CState) (base : String) : freshName s base ∉ names s := freshName_fresh s base
+
+-- ================================================================================================ non-vacuity
+/-! The model of the docstring of `convert_variable`:
+    `var time :: ms {cmeta_id: time}`, `var sv1 :: mV {cmeta_id: sv11, init: 2}`, `ode(sv1, time) = 1 :: mV_per_ms`. -/
+
+def uVolt : U := ⟨1, ⟨2, 1, -3, -1, 0, 0, 0, 0⟩⟩
+def uMV : U := ⟨1/1000, ⟨2, 1, -3, -1, 0, 0, 0, 0⟩⟩
+def uSec : U := ⟨1, ⟨0, 0, 1, 0, 0, 0, 0, 0⟩⟩
+def uMs : U := ⟨1/1000, ⟨0, 0, 1, 0, 0, 0, 0, 0⟩⟩
+
+def demoOde : CEqn := ⟨.deriv 1 0, .lit 1 (uMV.div uMs)⟩
+
+def demo0 : CState :=
+  { vars := [⟨"time", uMs, none, some "time"⟩, ⟨"sv1", uMV, some 2, some "sv11"⟩],
+    cmetaMap := [("time", 0), ("sv11", 1)] }
+
+/-- the model as `add_equation` builds it -/
+def demo : CState := addEq demo0 demoOde true
+
+theorem demo0_inv : Inv0 demo0 :=
+  { notRaised := rfl, scopedE := fun _ h => by cases h, keys := List.nodup_nil, vdKeys := List.nodup_nil,
+    odKeys := List.nodup_nil, vd := fun _ _ => ⟨fun h => by cases h, fun h => by cases h.1⟩,
+    od := fun _ _ => ⟨fun h => by cases h, fun h => by cases h.1⟩ }
+
+theorem demo_eqs : demo.equations = [demoOde] :=
+  (addEq_ok demo0_inv demoOde true (by intro i hi; simp [demoOde, CEqn.allVars, CLhs.vars, X.vars] at hi;
+    rcases hi with rfl | rfl <;> decide) (fun _ h => by cases h) (fun _ _ h => by cases h)).1
+
+theorem demo_wf : WF demo := by
+  have h := addEq_ok demo0_inv demoOde true (by intro i hi; simp [demoOde, CEqn.allVars, CLhs.vars, X.vars] at hi;
+    rcases hi with rfl | rfl <;> decide) (fun _ h => by cases h) (fun _ _ h => by cases h)
+  refine ⟨h.2.2.2, ?_, ?_, ?_⟩
+  · rw [demo_eqs]; intro e₁ h₁ e₂ h₂ v x t hv _
+    simp only [List.mem_cons, List.not_mem_nil, or_false] at h₁; subst h₁; cases hv
+  · rw [demo_eqs]; intro e₁ h₁ e₂ h₂ x₁ t₁ x₂ t₂ hl₁ hl₂
+    simp only [List.mem_cons, List.not_mem_nil, or_false] at h₁ h₂; subst h₁; subst h₂
+    cases hl₁; cases hl₂; rfl
+  · rw [demo_eqs]; intro e he x t hl
+    simp only [List.mem_cons, List.not_mem_nil, or_false] at he; subst he; cases hl; decide
+
+/-- the three worked examples of the docstring -/
+example : (convertVariable demo 1 uVolt (1/1000) .output true).1.equations =
+    [demoOde, ⟨.var 2, .mul (.var 1) (.lit (1/1000) (uVolt.div uMV))⟩] := by decide +kernel
+example : ((convertVariable demo 1 uVolt (1/1000) .output true).1.vars.map fun x => (x.name, x.init, x.cmeta)) =
+    [("time", none, some "time"), ("sv1", some 2, none), ("sv1_converted", none, some "sv11")] := by decide +kernel
+example : (convertVariable demo 1 uVolt (1/1000) .input true).1.equations =
+    [⟨.var 1, .div (.var 2) (.lit (1/1000) (uVolt.div uMV))⟩,
+     ⟨.var 3, .lit 1 (uMV.div uMs)⟩,
+     ⟨.deriv 2 0, .mul (.var 3) (.lit (1/1000) (uVolt.div uMV))⟩] := by decide +kernel
+example : ((convertVariable demo 1 uVolt (1/1000) .input true).1.vars.map fun x => (x.name, x.init, x.cmeta)) =
+    [("time", none, some "time"), ("sv1", none, none), ("sv1_converted", some (1/500), some "sv11"),
+     ("sv1_orig_deriv", none, none)] := by decide +kernel
+example : (convertVariable demo 0 uSec (1/1000) .input true).1.equations =
+    [⟨.var 0, .div (.var 2) (.lit (1/1000) (uSec.div uMs))⟩,
+     ⟨.var 3, .lit 1 (uMV.div uMs)⟩,
+     ⟨.deriv 1 2, .div (.var 3) (.lit (1/1000) (uSec.div uMs))⟩] := by decide +kernel
+example : ((convertVariable demo 0 uSec (1/1000) .input true).1.vars.map fun x => (x.name, x.init, x.cmeta)) =
+    [("time", none, none), ("sv1", some 2, some "sv11"), ("time_converted", none, some "time"),
+     ("sv1_orig_deriv", none, none)] := by decide +kernel
+
+/-- the hypotheses of `convert_var_sound` are met by the docstring's model, and it has point solutions -/
+example : CallOK (K := ℚ) ⟨fun q => q, fun _ x => x, fun _ x _ => x⟩ demo 1 (1/1000) .input
+    (convertVariable demo 1 uVolt (1/1000) .input true) :=
+  convert_var_sound _ demo_wf 1 (by decide) uVolt (1/1000) (by decide) (by norm_num) .input true
+example : CallOK (K := ℚ) ⟨fun q => q, fun _ x => x, fun _ x _ => x⟩ demo 0 (1/1000) .input
+    (convertVariable demo 0 uSec (1/1000) .input true) :=
+  convert_var_sound _ demo_wf 0 (by decide) uSec (1/1000) (by decide) (by norm_num) .input true
+example : Sat (K := ℚ) ⟨fun q => q, fun _ x => x, fun _ x _ => x⟩ ⟨fun _ => 5, fun _ _ => 1⟩ demo := by
+  unfold Sat; rw [demo_eqs]; intro e he
+  simp only [List.mem_cons, List.not_mem_nil, or_false] at he; subst he
+  simp [Holds, demoOde, lhsVal]
+
+end Cellml.Props.C06
